@@ -78,7 +78,7 @@ def charge_positions(rng, basis, n):
 
 def gen_cases(tier, seed):
     quick = tier == "quick"
-    bits = 10 if quick else 24
+    bits = 24
     cases = []
     for la in range(6):
         for lb in range(6):
